@@ -26,7 +26,7 @@ ASSUMPTIONS = ["unique ids; relations are defined two levels deep (deeper descen
 
 TYPES = ("gene", "mRNA", "exon", "exon", "CDS")
 FTS = (None, "exon", ("exon", "mRNA"))
-OBS = (None, "start", ("seqid", "start"))
+OBS = (None, "start", ("seqid", "start"), ["seqid", "length", "start"])
 
 
 def kmax(tier):
@@ -118,10 +118,12 @@ def body(ch, ctx):
     lines = {}
     enc = lambda x: x.replace("%", "%25").replace(",", "%2C")
     # several parents are written as a comma list or by repeating the key (the rest of the file has nothing to repeat)
-    style = ch.choose("multi_parent_style", ("comma", "repeated")) if any(len(v) > 1 for v in parents_of.values()) and (k <= 3 or ctx.tier != "quick") else "comma"
+    style = ch.choose("multi_parent_style", ("comma", "repeated", "comma+first-again")) if any(len(v) > 1 for v in parents_of.values()) and (k <= 3 or ctx.tier != "quick") else "comma"
     for i in range(k):
         attrs = "ID=%s" % enc(names[i])
-        if parents_of[i] and style == "comma":
+        if parents_of[i] and style == "comma+first-again" and len(parents_of[i]) > 1:
+            attrs += ";Parent=" + ",".join(enc(p) for p in parents_of[i] + parents_of[i][:1])      # the first parent is named a second time
+        elif parents_of[i] and style != "repeated":
             attrs += ";Parent=" + ",".join(enc(p) for p in parents_of[i])
         elif parents_of[i]:
             attrs += "".join(";Parent=" + enc(p) for p in parents_of[i])
